@@ -203,6 +203,34 @@ func generate(w *mon.W) {
 			}
 		}
 	}
+	// a name that is both a binding and a column: written bare it is the binding,
+	// written in back quotes it is the column — in chains of 2..5 alike
+	// comparisons joined by or / and, with every pattern of quoting
+	for k := 2; k <= 5; k++ {
+		for mask := 0; mask < 1<<k; mask++ {
+			for oi, op := range []string{"or", "and"} {
+				var e *E
+				for i := 0; i < k; i++ {
+					leaf := Name("ia")
+					if mask>>i&1 == 1 {
+						leaf = QName("ia")
+					}
+					link := Bin("==", leaf, Num(fmt.Sprint(i+1)))
+					if e == nil {
+						e = link
+					} else {
+						e = Bin(op, e, link)
+					}
+				}
+				for pi, pos := range []string{"where", "extend"} {
+					c1 := &Case{Params: map[string]string{}, Lets: []LetDef{{"ia", Num("3")}}, X: e, Pos: pos, Seed: int64(mask), LetParens: 1}
+					w.Do(fmt.Sprint("chain|let|", k, "|", mask, "|", oi, "|", pi), func(r *mon.R) { Check(c1, r) })
+					c2 := &Case{Params: map[string]string{"ia": "$1"}, X: e, Pos: pos, Seed: int64(mask), LetParens: 1}
+					w.Do(fmt.Sprint("chain|param|", k, "|", mask, "|", oi, "|", pi), func(r *mon.R) { Check(c2, r) })
+				}
+			}
+		}
+	}
 	// histories: the same let value text compiled with different earlier bindings, then with none
 	for ti, tmpl := range []func(a *E) *E{
 		func(a *E) *E { return Idx(StrLit("abc", false), a) },
